@@ -71,6 +71,7 @@ type ContractSet struct {
 	Unbound   []string
 	FlagSets  map[string]int // type key -> number of bits
 	MethodNonNil map[string]bool
+	ParametricFiles []string
 	TypeInvs     []*TypeInv
 	ElemsNonNil  map[string]bool // type keys whose slice elements are never nil
 	typeInvByKey map[string][]*TypeInv
@@ -84,7 +85,7 @@ type TypeInv struct {
 
 var clauseKeywords = map[string]bool{"requires": true, "ensures": true, "invariant": true, "decreases": true, "property": true,
 	"pure": true, "assigns": true, "trusted": true, "noinline": true, "inline": true, "func": true, "sweep": true, "immutable": true, "spec": true,
-	"axiom": true, "flagset": true, "safeonly": true, "immutable-family": true, "method-pre": true, "entry": true, "type-invariant": true, "elems-nonnil": true}
+	"axiom": true, "flagset": true, "safeonly": true, "immutable-family": true, "method-pre": true, "entry": true, "type-invariant": true, "elems-nonnil": true, "callback-parametric": true}
 
 var contractRoot = "" // directory that contract file paths are relative to (repo or mirror)
 
@@ -308,6 +309,12 @@ func (w *World) parseContractFile(cs *ContractSet, file string) error {
 			}
 			c.Name = hd[1]
 			cs.TypeInvs = append(cs.TypeInvs, &TypeInv{TypeText: hd[0], Var: hd[1], Clause: c})
+		case "callback-parametric":
+			// callback-parametric file <path> : functions of that file call nothing dynamically except the function
+			// values they are given (directly or inside the visitor object they pass around)
+			if len(fs) >= 3 && fs[1] == "file" {
+				cs.ParametricFiles = append(cs.ParametricFiles, fs[2])
+			}
 		case "elems-nonnil":
 			if cs.ElemsNonNil == nil {
 				cs.ElemsNonNil = map[string]bool{}
